@@ -149,3 +149,42 @@ func VerifC04_v6_redeclared() {
 		verifAssert("openapi:schema-accepts-iff-server-accepts", specOK == ran)
 	}
 }
+
+// design v6, method inh: Reference(Ref) (Ref requires a, a >= 2 runes); the
+// payload re-declares a and requires nick: both a and nick are required.
+func VerifC04_v6_inherited_required() {
+	body := &server.InhRequestBody{}
+	rules := map[string]bool{}
+	if nondetBool("a-present") {
+		a := nondetStringUpTo("a", deep(3))
+		for i := 0; i < len(a); i++ {
+			verifAssume(a[i] < 0x80)
+		}
+		body.A = &a
+		if len(a) < 2 {
+			rules["invalid_length"] = true
+		}
+	} else {
+		rules["missing_field"] = true
+	}
+	if nondetBool("nick-present") {
+		n := nondetStringUpTo("nick", 1)
+		body.Nick = &n
+	} else {
+		rules["missing_field"] = true
+	}
+	called := 0
+	endpoint := func(ctx context.Context, p any) (any, error) { called++; return nil, nil }
+	dec := func(*http.Request) goahttp.Decoder {
+		return stubDecoder{func(v any) error { *(v.(*server.InhRequestBody)) = *body; return nil }}
+	}
+	w := newRecWriter()
+	server.NewInhHandler(endpoint, &stubMux{}, dec, recEncoder(), nil, nil).ServeHTTP(w, newRequest("POST", nil))
+	ran := called == 1
+	verifAssert("endpoint-runs-iff-request-valid", ran == (len(rules) == 0))
+	if !ran {
+		verifAssert("rejected:exactly-one-400", w.nHeaders == 1 && w.status == http.StatusBadRequest)
+		verifAssert("rejected:names-a-violated-rule", rules[errorName(w)])
+	}
+	verifAssert("openapi:schema-accepts-iff-server-accepts", verifSchemaAccepts(openapiDoc, "POST /inh", map[string]any{"body": body}) == ran)
+}
